@@ -188,12 +188,10 @@ theorem monthday_clause (da : DWArgs a) (d e : Int) (hd : 0 < d) (he : e < 0) :
 
 /-- **bridge**: on every date, the model's date predicate of the constructed rule is the
     specification's `dateOk` of the argument set -/
-theorem simpleOk_eq_dateOk (da : DWArgs a) (h : construct a = .ok r) (ord : Int) (ho : 1 ≤ ord) :
-    simpleOk r ord = Spec.RRule.dateOk a ord := by
+theorem simpleOk_rule_eq_dateOk (da : DWArgs a) (bh bm bs : Option (List Int)) (ord : Int) (ho : 1 ≤ ord) :
+    simpleOk (dailyRuleOf a bh bm bs) ord = Spec.RRule.dateOk a ord := by
   obtain ⟨_, hv, _⟩ := toOrdinal_fromOrdinal ord ho
   obtain ⟨_, _, hd1, hd2⟩ := hv
-  obtain ⟨bh, bm, bs, hr⟩ := daily_rule da h
-  rw [hr]
   unfold simpleOk Spec.RRule.dateOk
   dsimp only
   have hmonths : Spec.RRule.months a = a.bymonth.getD [] := by
@@ -218,5 +216,11 @@ theorem simpleOk_eq_dateOk (da : DWArgs a) (h : construct a = .ok r) (ord : Int)
   · rw [yearday_clause (some (x :: xs))]
     dsimp only
     cases b1 <;> cases b2 <;> cases b3 <;> simp
+
+theorem simpleOk_eq_dateOk (da : DWArgs a) (h : construct a = .ok r) (ord : Int) (ho : 1 ≤ ord) :
+    simpleOk r ord = Spec.RRule.dateOk a ord := by
+  obtain ⟨bh, bm, bs, hr⟩ := daily_rule da h
+  rw [hr]
+  exact simpleOk_rule_eq_dateOk da bh bm bs ord ho
 
 end RRule
